@@ -36,6 +36,8 @@ CLASSES = [
     (r"^rln::circuit::iden3calc::populate_inputs$", "Diverge", None),     # request-dependent: stays a violation (see known findings)
     (r"^rln::circuit::iden3calc::|^rln::<circuit::iden3calc::", None, "resource: evaluation of the instance's witness graph; indices and operators come from the graph bytes fixed at "
                                                                      "construction (the bundled graph's well-formedness is C05 R05-4), field operands from canonical Fr values"),
+    (r"^zerokit_utils::(<)?merkle_tree::|^rln::<?pm_tree_adapter::", None, "internal: the tree's own index arithmetic (depth < 32, node/flag vectors sized by the capacity: structure invariants, C06); "
+                                                                              "the request only supplies the position, which proof() checks against the capacity first (C07 R07-3)"),
     (r"^zerokit_utils::poseidon::|^rln::hashers::poseidon_hash$", None, "internal: Poseidon is called with fixed arities 1..3 from the protocol code; the parameter table covers 1..8 (C09)"),
     (r"^rln::protocol::rln_witness_to_bigint_json$", "Unwrap", "internal: serde_json::to_value of strings and string vectors inside json! cannot fail"),
     (r"^rln::protocol::rln_witness_to_json$", "Unwrap", "internal: serde_json::to_value of a derived Serialize struct of strings"),
